@@ -358,10 +358,13 @@ std::unique_ptr<Execution> execute(const Scenario& sc) {
     if (sc.stream_mode) app->rs->configure(sc.ccfg.brokers, sc.ccfg.default_port, sc.ccfg); else app->cl->configure(sc.ccfg);
 
     // runs script entry i and the entries chained to it; in_handler entries are executed from a posted handler
-    std::function<void(size_t)> run_entry = [app, &run, &sc, ioc, &run_entry](size_t i) {
-        auto go = [app, &run, &sc, i] {
+    // script entries to be executed from inside the completion handler of entry i (indexed once: scripts can have 10^5 entries)
+    std::map<int, std::vector<size_t>> after_of;
+    for (size_t k = 0; k < sc.script.size(); ++k) if (sc.script[k].after_script >= 0) after_of[sc.script[k].after_script].push_back(k);
+    std::function<void(size_t)> run_entry = [app, &run, &sc, ioc, &run_entry, &after_of](size_t i) {
+        auto go = [app, &run, &sc, i, &after_of] {
             run.script_op[i] = app->exec(sc.script[i]);
-            if (run.script_op[i] >= 0) for (size_t k = 0; k < sc.script.size(); ++k) if (sc.script[k].after_script == (int)i) app->followups[run.script_op[i]].push_back(k);
+            if (run.script_op[i] >= 0) { auto it = after_of.find((int)i); if (it != after_of.end()) for (size_t k : it->second) app->followups[run.script_op[i]].push_back(k); }
             for (size_t k = i + 1; k < sc.script.size() && sc.script[k].chained; ++k) run.script_op[k] = app->exec(sc.script[k]);
         };
         if (sc.script[i].in_handler) asio::post(*ioc, go); else go();
